@@ -161,7 +161,7 @@ func (h *Handler) handleQuery(r *http.Request, w http.ResponseWriter, query *add
 	if query.Prop != nil {
 		var addressData addressDataReq
 		if err := query.Prop.Decode(&addressData); err != nil && !internal.IsNotFound(err) {
-			return err
+			return &internal.HTTPError{Code: http.StatusBadRequest, Err: err}
 		}
 		req, err := decodeAddressDataReq(&addressData)
 		if err != nil {
@@ -216,7 +216,7 @@ func (h *Handler) handleMultiget(ctx context.Context, w http.ResponseWriter, mul
 	if multiget.Prop != nil {
 		var addressData addressDataReq
 		if err := multiget.Prop.Decode(&addressData); err != nil && !internal.IsNotFound(err) {
-			return err
+			return &internal.HTTPError{Code: http.StatusBadRequest, Err: err}
 		}
 		decoded, err := decodeAddressDataReq(&addressData)
 		if err != nil {
